@@ -303,7 +303,7 @@ LEMMA ProcessInd == ASSUME IndInv, NEW t \in Threads, Process(t) PROVE IndInv'
                                         ![cr.stream].got = Append(@, key),
                                         ![cr.stream].completes = IF complete THEN @ + 1 ELSE @]
           /\ conn' = [conn EXCEPT ![c].closed = closed2, ![c].completed = (cr.completed \/ complete)]
-          /\ IF complete /\ cr.key \in DOMAIN conns
+          /\ IF complete /\ cr.key \in DOMAIN conns /\ conns[cr.key] = c
              THEN conns' = [x \in DOMAIN conns \ {cr.key} |-> conns[x]] /\ free' = Append(free, c)
              ELSE UNCHANGED <<conns, free>>
           /\ pi' = [pi EXCEPT ![t] = @ + 1] /\ pc' = [pc EXCEPT ![t] = "start"]
@@ -322,7 +322,7 @@ LEMMA ProcessInd == ASSUME IndInv, NEW t \in Threads, Process(t) PROVE IndInv'
       BY <2>a, <1>0 DEF TypeOK, ConnRec
     <2>e. complete => ~cr.completed
       OBVIOUS
-    <2>1. CASE complete /\ cr.key \in DOMAIN conns
+    <2>1. CASE complete /\ cr.key \in DOMAIN conns /\ conns[cr.key] = c
       <3>a. conns' = [x \in DOMAIN conns \ {cr.key} |-> conns[x]] /\ free' = Append(free, c)
         BY <2>1, <2>a
       <3>b. /\ DOMAIN conns' = DOMAIN conns \ {cr.key}
@@ -351,7 +351,7 @@ LEMMA ProcessInd == ASSUME IndInv, NEW t \in Threads, Process(t) PROVE IndInv'
       <3>11. S3' /\ S5' BY <1>0, <2>c, <2>d DEF S3, S5
       <3>12. S4' BY <1>0, <2>a, <2>c, <2>d DEF S4, TypeOK
       <3>13. QED BY <3>1, <3>2, <3>4, <3>4a, <3>5, <3>6, <3>7, <3>8, <3>9, <3>10, <3>11, <3>12
-    <2>2. CASE ~(complete /\ cr.key \in DOMAIN conns)
+    <2>2. CASE ~(complete /\ cr.key \in DOMAIN conns /\ conns[cr.key] = c)
       <3>a. UNCHANGED <<conns, free>>
         BY <2>2, <2>a
       <3> HIDE DEF key, fin, d, allDirs, stale, right, closed2, complete
